@@ -228,4 +228,37 @@ def run_c01(ctx):
                         "fusedev replies are counted on an AF_UNIX SOCK_SEQPACKET pair (one message per write call)"]
 
 
+def c17_requests(ctx):
+    """C17 through whole requests: every opcode with a payload (READ, READDIR(PLUS), GETXATTR, LISTXATTR, READLINK, IOCTL, ...)
+    and every request class, served over virtio-fs descriptor chains at random page alignments and segmentations, with
+    the dirty bitmap of the reply and request regions compared with the pages the server modified. Called by the
+    transport engine's C17 check in addition to its writer-level scenarios."""
+    bindir = C.build_harness(bins=["wire"])
+    abi = export_abi(ctx)
+    t1 = ctx.path("c17wf.ndjson")
+    C.run_bin(bindir, "wire", [abi, t1, 3 if ctx.quick else 40], env={"VERIF_SEED": ctx.seed}, timeout=3000)
+    rows, txs = validate(ctx, "C17", t1, "wf")
+    nv = len([t for t in txs if t["tr"] == "virtiofs"])
+    if not ctx.quick:
+        cases, ncls = export_cases(ctx)
+        t2 = ctx.path("c17cls.ndjson")
+        C.run_bin(bindir, "wire", [abi, t2, "classes", cases, 1, 1], env={"VERIF_SEED": ctx.seed}, timeout=3000)
+        rows2, txs2 = validate(ctx, "C17", t2, "class")
+        nv += len([t for t in txs2 if t["tr"] == "virtiofs"])
+
+    def mut(bad):
+        n = 0
+        for r in bad:
+            if r.get("e") == "Tx" and r["tr"] == "virtiofs" and r["out"]["dirty_reply"] and n == 0:
+                r["out"]["dirty_reply"] = r["out"]["dirty_reply"][1:]
+                n = 1
+            elif r.get("e") == "Tx" and r["tr"] == "virtiofs" and n == 1:
+                r["out"]["dirty_req"] = [4096]
+                n = 2
+    sigs = binding_demo(ctx, rows, mut, "C17|")
+    ctx.extra["requests_over_virtiofs_with_dirty_tracking"] = nv
+    ctx.extra.setdefault("binding_demo", []).append({"corruption": "drop a dirty page / mark a request page dirty in a logged transaction", "rejected_with": sigs})
+    return nv
+
+
 PROPS = {"C01": run_c01, "C02": run_c02, "C03": run_c03}
